@@ -23,8 +23,9 @@ class SConn:
         by = 'snap' if me is not None and me.name.startswith('r_') else 'bcast'
         if msg[0] in ('update', 'error_update'):
             p = msg[1]
-            s.log(ev='deliver', c=self.name, p=p, pm=p.split(':')[0], v=int(msg[2][0]) if msg[0] == 'update' else -1,
-                  by=by)
+            # an error update carries the version number as its error text
+            s.log(ev='deliver', c=self.name, p=p, pm=p.split(':')[0],
+                  v=int(msg[2][0]) if msg[0] == 'update' else int(float(msg[2][1])), by=by)
         else:
             s.log(ev='other', c=self.name, action=msg[0], spec=msg[1])
         if s.me() is not None and not s.aborting:
@@ -51,7 +52,7 @@ class World:
         self.mb, self.dp = mb, dp
         self.Module, self.Parameter, self.FloatRange = Module, Parameter, FloatRange
 
-    def build(self, conns):
+    def build(self, conns, modnames=('m1', 'm2')):
         """called inside the patch (locks of the created objects are scheduler locks)"""
         Module, Parameter, FloatRange = self.Module, self.Parameter, self.FloatRange
         w = self
@@ -75,7 +76,8 @@ class World:
 
         def announce_update(moduleobj, pobj):
             # called inside the module's updateLock right after the store: the linearisation point
-            w.sched.log(ev='store', p=f'{moduleobj.name}:{pobj.export}', pm=moduleobj.name, v=int(pobj.value))
+            w.sched.log(ev='store', p=f'{moduleobj.name}:{pobj.export}', pm=moduleobj.name,
+                        v=int(float(str(pobj.readerror))) if pobj.readerror else int(pobj.value))
             orig(moduleobj, pobj)
         self.dispatcher.announce_update = announce_update
 
@@ -96,7 +98,8 @@ class World:
         root.propagate = False
         root.addHandler(RemoteLogHandler())
         self.mods = {}
-        for m in ('m1', 'm2'):
+        self.modnames = tuple(modnames)
+        for m in self.modnames:
             o = Mod(m, root.getChild(m), {'description': ''}, srv)
             o.updateCallback = announce_update
             srv.secnode.modules[m] = o
@@ -108,9 +111,9 @@ class World:
         self.params = [f'{m}:{p}' for m in self.mods for p in ('_p1', '_p2')]
 
 
-def scope_params(scope):
+def scope_params(scope, modnames=('m1', 'm2')):
     if scope in (None, '.'):
-        return ['m1:_p1', 'm1:_p2', 'm2:_p1', 'm2:_p2']
+        return [f'{m}:{p}' for m in modnames for p in ('_p1', '_p2')]
     if ':' in scope:
         return [scope]
     return [f'{scope}:_p1', f'{scope}:_p2']
@@ -122,7 +125,7 @@ def run_scenario(sc, strategy, line_level=False, max_steps=8000):
     s = w.sched
     counter = {'v': 0}
     with w.patch:
-        w.build(sorted(sc['scripts']))
+        w.build(sorted(sc['scripts']), sc.get('mods', ('m1', 'm2')))
         # seed: the cache holds version 0 of everything
         for p in w.params:
             s.log(ev='seed', p=p, v=0)
@@ -133,7 +136,7 @@ def run_scenario(sc, strategy, line_level=False, max_steps=8000):
                 s.log(ev='req', c=cname, kind=kind, scope=scope or '.', sm=(scope or '.').split(':')[0])
                 if kind == 'disconnect':
                     w.dispatcher.remove_connection(conn)
-                    s.log(ev='reply', c=cname, kind='ident', scope='.', sm='.', params=[])
+                    s.log(ev='reply', c=cname, kind='ident', scope='.', sm='.', params=[], ok=True, valid=True)
                     continue
                 msg = {'activate': ('activate', scope, None), 'deactivate': ('deactivate', scope, None),
                        'ident': ('*IDN?', None, None)}[kind]
@@ -144,13 +147,19 @@ def run_scenario(sc, strategy, line_level=False, max_steps=8000):
                 except Exception as e:  # the interface would send an error reply
                     reply = ('error_' + msg[0], scope, [type(e).__name__, str(e), {}])
                 conn.send_reply(reply)      # the interface sends the reply after the dispatcher lock is released
+                valid = scope in (None, '.') or scope in w.modnames or scope in w.params
                 s.log(ev='reply', c=cname, kind=kind, scope=scope or '.', sm=(scope or '.').split(':')[0],
-                      params=scope_params(scope) if kind != 'ident' else [], action=reply[0])
+                      params=scope_params(scope, w.modnames) if kind != 'ident' and valid else [], action=reply[0],
+                      ok=not reply[0].startswith('error_'), valid=valid)
 
         def updater(todo):
-            for m, p in todo:
+            from frappy.errors import HardwareError
+            for m, p, *how in todo:
                 counter['v'] += 1
-                w.mods[m].announceUpdate(p, float(counter['v']))
+                if how:      # the parameter goes into an error state (the error text is the version number)
+                    w.mods[m].announceUpdate(p, None, HardwareError(str(counter['v'])))
+                else:
+                    w.mods[m].announceUpdate(p, float(counter['v']))
 
         names = []
         for c, script in sorted(sc['scripts'].items()):
@@ -158,7 +167,10 @@ def run_scenario(sc, strategy, line_level=False, max_steps=8000):
         for k, todo in enumerate(sc.get('updaters', [])):
             s.spawn(f'u{k + 1}', updater, todo)
         s.run()
-        cache = {p: int(getattr(w.mods[p.split(':')[0]], p.split(':')[1].lstrip('_'))) for p in w.params}
+        def version(p):
+            pobj = w.mods[p.split(':')[0]].parameters[p.split(':')[1].lstrip('_')]
+            return int(float(str(pobj.readerror))) if pobj.readerror else int(pobj.value)
+        cache = {p: version(p) for p in w.params}
     ev = s.events
     ev.append({'ev': 'quiet', 'params': [{'p': p, 'pm': p.split(':')[0]} for p in w.params], 'cache': cache,
                'seq': len(ev), 'th': 'ctl', 'vt': s.now})
@@ -245,7 +257,7 @@ def run_cache_scenario(sc, strategy, line_level=False, max_steps=8000):
                 s.log(ev='req', c=cname, kind='activate', scope='.', sm='.')
                 rep = disp.handle_request(conn, ('activate', None, None))
                 conn.send_reply(rep)
-                s.log(ev='reply', c=cname, kind='activate', scope='.', sm='.', params=scope_params(None))
+                s.log(ev='reply', c=cname, kind='activate', scope='.', sm='.', params=scope_params(None), ok=True, valid=True)
             s.setup_phase = False
             ready.set()
 
@@ -285,7 +297,7 @@ def run_cache_scenario(sc, strategy, line_level=False, max_steps=8000):
                     rep = ('error_' + msg[0], scope, [type(e).__name__, str(e), {}])
                 conn.send_reply(rep)
                 s.log(ev='reply', c=cname, kind=kind, scope=scope or '.', sm=(scope or '.').split(':')[0],
-                      params=scope_params(scope) if kind != 'ident' else [])
+                      params=scope_params(scope) if kind != 'ident' else [], ok=not rep[0].startswith('error_'), valid=True)
 
         s.setup_phase = True
         s.spawn('r_act', activator)
